@@ -44,8 +44,16 @@ var Log logutil.Log = NopLog{}
 var Drops int
 
 // Pod builds a pod with the given key, resource version and labels ("k=v,k2=v2").
+// Every object carries a non-zero metadata.generation that never changes (label and status writes do not bump it),
+// and every object named "b" is terminating (deletionTimestamp set, still existing): kcache keys and orders objects
+// by namespace/name and resourceVersion only, so neither field may influence anything.
 func Pod(ns, name, rv, labels string) *corev1.Pod {
-	return &corev1.Pod{ObjectMeta: metav1.ObjectMeta{Namespace: ns, Name: name, ResourceVersion: rv, Labels: ParseLabels(labels)}}
+	p := &corev1.Pod{ObjectMeta: metav1.ObjectMeta{Namespace: ns, Name: name, ResourceVersion: rv, Labels: ParseLabels(labels), Generation: 7}}
+	if name == "b" {
+		t := metav1.Unix(1000, 0)
+		p.DeletionTimestamp = &t
+	}
+	return p
 }
 
 func ParseLabels(s string) map[string]string {
